@@ -233,9 +233,108 @@ def _trig(node, param):
     return ('?', norm(node))
 
 
-def run(ctx):
-    prog = ctx.prog
-    mod = prog.mod('vector_algebra')
+class UndoPaths(Analysis):
+    """Per path: the sequence of transformations applied to the vector, with
+    the value each rotation angle has on that path (a constant, the angle
+    parameter, or the result of one particular assignment).  State: frozenset
+    of (env, sequence)."""
+
+    def __init__(self, vec, angle, rot_kinds):
+        self.vec, self.angle, self.rot_kinds = vec, angle, rot_kinds
+
+    def initial(self):
+        return frozenset([((), ())])
+
+    def _val(self, expr, env):
+        if isinstance(expr, ast.UnaryOp) and isinstance(expr.op, ast.USub):
+            v = self._val(expr.operand, env)
+            if v[0] == 'const':
+                return ('const', -v[1])
+            return v[1] if v[0] == 'neg' else ('neg', v)
+        c = try_fold(expr)
+        if isinstance(c, (int, float)):
+            return ('const', float(c))
+        if isinstance(expr, ast.Name):
+            if expr.id == self.angle:
+                return ('param', expr.id)
+            return dict(env).get(expr.id, ('unknown', expr.id))
+        return ('expr', norm(expr), getattr(expr, 'lineno', 0))
+
+    def transfer(self, stmt, state):
+        out = set()
+        for env_t, seq in state:
+            env = dict(env_t)
+            if isinstance(stmt, ast.Assign) and len(stmt.targets) == 1 and isinstance(stmt.targets[0], ast.Name):
+                name, val = stmt.targets[0].id, stmt.value
+                if name == self.vec:
+                    step = ('?', norm(val))
+                    if isinstance(val, ast.BinOp) and isinstance(val.op, ast.MatMult) \
+                            and norm(val.right) == self.vec and isinstance(val.left, ast.Name):
+                        step = env.get('@' + val.left.id, ('?', norm(val)))
+                    seq = seq + (step,)
+                elif isinstance(val, ast.Call) and call_name(val) in self.rot_kinds and len(val.args) == 1:
+                    env['@' + name] = (self.rot_kinds[call_name(val)], self._val(val.args[0], env))
+                else:
+                    env.pop('@' + name, None)
+                    env[name] = self._val(val, env)
+                    if env[name][0] == 'expr':
+                        env[name] = ('assigned', name, stmt.lineno)
+            elif isinstance(stmt, ast.AugAssign) and isinstance(stmt.target, ast.Name):
+                if stmt.target.id == self.vec:
+                    seq = seq + (('?', norm(stmt)),)
+                else:
+                    env[stmt.target.id] = ('assigned', stmt.target.id, stmt.lineno)
+            out.add((tuple(sorted(env.items())), seq))
+        return frozenset(out)
+
+
+def _inverse(step):
+    kind, v = step
+    if v[0] == 'const':
+        return kind, ('const', -v[1])
+    return kind, (v[1] if v[0] == 'neg' else ('neg', v))
+
+
+def check_undo_paths(ctx, rule, mod, fn, vec, angle):
+    """On every path through the helper the vector is transformed by
+    P1..Pk, then turned by the angle about z, then by the inverses of Pk..P1 -
+    and by nothing else (identity steps, rotations by a constant 0, dropped)."""
+    kinds = {'rotate_atoms_around_z_axis': 'z', 'rotate_atoms_around_y_axis': 'y'}
+    exits = UndoPaths(vec, angle, kinds).exit_states(fn)
+    seqs = set()
+    for _stmt, st in exits:
+        for _env, seq in st:
+            seqs.add(seq)
+    if not seqs or len(seqs) > 256:
+        raise AnalysisError('C20.R3: %d transformation sequences' % len(seqs))
+    for seq in sorted(seqs, key=repr):
+        steps = [s for s in seq if not (s[0] in ('z', 'y') and s[1] == ('const', 0.0))
+                 and not (s[0] in ('z', 'y') and s[1] == ('const', -0.0))]
+        main = [i for i, s in enumerate(steps) if s == ('z', ('param', angle))]
+        ok = False
+        if len(main) == 1:
+            pre, post = steps[:main[0]], steps[main[0] + 1:]
+            ok = all(s[0] in ('z', 'y') for s in pre + post) and \
+                [_inverse(s) for s in reversed(pre)] == post
+        def show(s):
+            v = s[1]
+            if s[0] == '?':
+                return 'vec = %s' % v
+            if v[0] == 'const':
+                return '%s(%.4g)' % (s[0], v[1])
+            if v[0] == 'neg':
+                return '%s(-%s)' % (s[0], v[1][1])
+            return '%s(%s)' % (s[0], v[1])
+        label = ' ; '.join(show(s) for s in steps)
+        ctx.ob(rule, 'undo-path:' + label, ok,
+               'the vector is transformed by aligning rotations, the rotation by the angle about z, '
+               'and the inverse aligning rotations in reverse order - and by nothing else (a step '
+               'that is not one of the elementary rotations, or an alignment without its undo, '
+               'leaves the result in the aligned frame): ' + label, mod, fn)
+
+
+def helper_roles(mod):
+    """(helper function, axis parameter, angle parameter, vector parameter)"""
     fn = _find_helper(mod)
     params = [a.arg for a in fn.args.args]
     # role of the parameters: the axis is the one whose components are tested
@@ -254,6 +353,15 @@ def run(ctx):
     # the rotated vector is the parameter the returned value is rebuilt from
     vec = others[-1]
     angle = others[0]
+    return fn, axis, angle, vec
+
+
+def run(ctx):
+    prog = ctx.prog
+    mod = prog.mod('vector_algebra')
+    fn, axis, angle, vec = helper_roles(mod)
+    params = [a.arg for a in fn.args.args]
+    rets = [r for r in walk_no_nested(fn) if isinstance(r, ast.Return)]
     structures = {}
     for name in ('rotate_atoms_around_z_axis', 'rotate_atoms_around_y_axis'):
         rf = mod.funcs.get(name)
@@ -405,6 +513,7 @@ def run(ctx):
            'after aligning (z by %s, then y by %s) the vector is rotated by the angle about z '
            'and the alignment is undone in reverse order with negated angles; found %s'
            % (z_align, y_align, tail), mod, fn)
+    check_undo_paths(ctx, 'C20.R3', mod, fn, vec, angle)
     # the axis is transformed together with the vector by each aligning rotation
     for node in walk_no_nested(fn):
         if isinstance(node, ast.If):
